@@ -3,7 +3,7 @@
 cd "$(dirname "$0")/.."
 tier=$1; seed=$2; shift 2
 ids=${@:-C01 C02 C03 C04 C05 C06 C07 C08 C09 C10 C11 C12 C13 C14 C15 C16 C17 C18 C19 C20}
-out=scratch/all_${tier}_${seed}.txt; : > $out
+mkdir -p scratch; out=scratch/all_${tier}_${seed}.txt; : > $out
 for c in $ids; do
   VERIF_SEED=$seed timeout 7200 ./check $c $tier > scratch/run_${tier}_${seed}_$c.out 2>&1; rc=$?
   echo "$c rc=$rc $(grep "^$c " scratch/run_${tier}_${seed}_$c.out | cut -c1-260)" >> $out
